@@ -6,6 +6,10 @@ props = [json.loads(l) for l in open(os.path.join(ROOT, "properties.jsonl"))]
 
 # id -> (technique, level text, level note, design ref)
 CHECKS = {
+ "C02": ("differential testing against an independent reference tree builder (with the reference tokenizer): grammar-based generation, exhaustive short tag sequences, doctype table sweep; deviation switches attribute failures to listed known findings",
+         "html5ever's DOM (ModelDom sink) and reported quirks mode are compared with a transcription of WHATWG 13.2.6 for generated documents and fragments under ~50 contexts and all option combinations of the property's domain; every sequence of <=2 (thorough 3) tag tokens over ~110 tokens in document mode and 8 fragment contexts; the whole quirks table in 5 spellings.",
+         "Trusted: refimpl/treebuilder.rs + tb_modes.rs, written from memory of the living standard; select-relaxation rules are self-consistency only; iframe_srcdoc with a non-default initial quirks mode and select-context fragments containing <input> are excluded (counted).",
+         "DESIGN.md 4 C02"),
  "C07": ("round-trip and metamorphic property test over constructed trees with adversarial strings and over parsed trees; decode oracle inverting the five entities",
          "serialize + parse_fragment reproduces constructed trees over the ordinary vocabulary; IncludeNode == start tag + ChildrenOnly(Some(name)) + end tag on every non-void element of constructed and parsed trees for both scripting settings; every attribute/text run decodes back to the original, verbatim iff under an HTML raw-text element.",
          "Attribute values and text are generated free of CR and NUL; void elements exempt from inner==outer.",
